@@ -2,6 +2,7 @@ package yqlib
 
 import (
 	"fmt"
+	"unicode/utf8"
 
 	yaml "gopkg.in/yaml.v3"
 )
@@ -180,6 +181,12 @@ func (o *CandidateNode) UnmarshalYAML(node *yaml.Node, anchorMap map[string]*Can
 
 func (o *CandidateNode) MarshalYAML() (*yaml.Node, error) {
 	log.Debug("MarshalYAML to yaml: %v", o.Tag)
+	// the yaml emitter panics (comment) or never returns (tag) on bytes that are not UTF-8
+	for _, text := range []string{o.Tag, o.Anchor, o.HeadComment, o.LineComment, o.FootComment} {
+		if !utf8.ValidString(text) {
+			return nil, fmt.Errorf("cannot encode to yaml: a tag, anchor or comment holds bytes that are not valid UTF-8")
+		}
+	}
 	switch o.Kind {
 	case AliasNode:
 		log.Debug("MarshalYAML - alias to yaml: %v", o.Tag)
